@@ -384,3 +384,78 @@ def c09(prop, tier):
                         "abstract sizes are blocks of 4 KiB; kinds, layouts, file-name suffixes and the storage mode after the restart are drawn at random per case",
                         "lost+found / .DS_Store handling is exercised by the repository's own tests only"],
                        "tlc Restart.tla + vh restart")
+
+
+def tlc_final_states(module, cfg, workers=1, timeout=1800):
+    """Run a specification whose invariant prints its final states as <<"CASE", json>>; returns
+    (TlcResult, path of an ndjson file with one final state per line)."""
+    r = run_tlc(module, cfg, env={"VERIF_PRINT": "1"}, workers=workers, timeout=timeout, keep_prints=True)
+    if not r.ok:
+        raise Machinery(f"{module}/{cfg} did not pass: {r.invariant or r.error}\n{r.output[-2000:]}")
+    out = os.path.join(scratch(), module.replace(".tla", "") + "-finals.ndjson")
+    with open(out, "w") as f:
+        for l in r.prints:
+            l = l.strip()
+            if l.startswith('<<"CASE", "') and l.endswith('">>'):
+                f.write(l[len('<<"CASE", "'):-3].replace('\\"', '"') + "\n")
+    n = sum(1 for _ in open(out))
+    if n == 0:
+        raise Machinery(f"{module}/{cfg} printed no final states")
+    log(f"[model] {module}/{cfg}: {r.distinct} distinct states, {n} final states, {r.wall_s:.1f}s")
+    return r, out
+
+
+def bytestream_check(prop, tier):
+    t0 = time.time()
+    cov = new_cov()
+    v = Verdict(prop)
+    r1 = model_check("ByteStream", "ByteStream.tla", "ByteStream.cfg", workers=8)
+    add_model(cov, "ByteStream", r1, "all client scripts of <= 3 messages (payload 0..2 bytes each, finish_write, name change) x first-message offset x name shape x identity/zstd (valid or invalid stream) x blob present/absent x half-close/abort; all interleavings of recv / put / handler; invariants of C16 and liveness: every party terminates")
+    r2, finals = tlc_final_states("ByteStream.tla", "ByteStream_table.cfg")
+    add_model(cov, "ByteStream/final-states", r2, "same model; reachable final states per script")
+    args = ["bytestream", "-cases", finals, "-tier", tier, "-seed", str(seed())]
+    res = run_vh(args, timeout=7200)
+    collect_driver(v, res, {"driver_args": args, "kind": "driver"})
+    cov["evaluations"], cov["distinct_nontrivial"], cov["rule"] = res["cases"], res["nontrivial"], res["rule"]
+    cov["samples"] = res.get("samples", [])[:4]
+    cov["drivers"].append({"driver": "bytestream", "executions": res["cases"], "drive_s": round(res["_wall_s"], 1)})
+    cov["checker_cmd"] = "tlc ByteStream.tla (safety + liveness, all interleavings) + vh bytestream (every script over bufconn; goroutine / reservation oracle after each call)"
+    log(f"[conf] bytestream: {res['cases']} executions ({res['nontrivial']} non-trivial), {len(res.get('violations', []))} violations, {res['_wall_s']:.1f}s")
+    return t0, cov, v
+
+
+@check("C16")
+def c16(prop, tier):
+    t0, cov, v = bytestream_check(prop, tier)
+    rc = v.finish()
+    write_evidence(prop, tier, "model_checking", cov, time.time() - t0, len(v.violations),
+                   CASE_ASSUME + ["a client abort is a stream reset that may overtake messages sent earlier (modelled as ClientGone at any message boundary); the client-side status of an aborted call is not compared",
+                                  "abstract payload bytes are concretised as halves of the transport stream; blob sizes 9 B and 70 kB (quick), up to 2 MiB+5 (thorough)"])
+    return rc
+
+
+@check("C14")
+def c14(prop, tier):
+    t0, cov, v = bytestream_check(prop, tier)
+    out = os.path.join(scratch(), "robust-cases.json")
+    r = run_tlc("Robust.tla", "Robust.cfg", env={"VERIF_CASES_OUT": out}, workers=1, timeout=300)
+    if not r.ok or not os.path.exists(out):
+        raise Machinery(f"Robust.tla did not pass: {r.invariant or r.error}\n{r.output[-1500:]}")
+    add_model(cov, "Robust", r, "lattice of unset optional sub-messages for 8 request shapes and 3 stored message shapes (96 points)")
+    log(f"[model] Robust: {r.distinct} lattice points")
+    args = ["robust", "-cases", out, "-tier", tier, "-seed", str(seed())]
+    res = run_vh(args, timeout=3600)
+    collect_driver(v, res, {"driver_args": args, "kind": "driver"})
+    cov["evaluations"] += res["cases"]
+    cov["distinct_nontrivial"] += res["nontrivial"]
+    cov["rule"] += " | robust: " + res["rule"]
+    cov["samples"] += res.get("samples", [])[:3]
+    cov["drivers"].append({"driver": "robust", "executions": res["cases"], "drive_s": round(res["_wall_s"], 1)})
+    cov["checker_cmd"] += " + tlc Robust.tla + vh robust (child process per run; goroutine / descriptor / reservation oracle after every request)"
+    log(f"[conf] robust: {res['cases']} executions ({res['nontrivial']} non-trivial), {len(res.get('violations', []))} violations, {res['_wall_s']:.1f}s")
+    rc = v.finish()
+    write_evidence(prop, tier, "model_checking", cov, time.time() - t0, len(v.violations),
+                   ["scope: pipeline lifecycle of ByteStream.Write (all interleavings in the model, every script replayed) and structure-level inputs (unset optional sub-messages, ill-formed stored headers and messages, odd names / offsets / headers); arbitrary byte-level fuzzing of the parsers is not part of this technique",
+                    "a crash is observed from outside: the server code runs in a child process of the harness",
+                    "after every request: no goroutine inside a handler or request-scoped cache helper, no descriptor into the cache directory, reserved = 0"])
+    return rc
